@@ -78,8 +78,8 @@ type c11Plan struct {
 }
 
 func c11Run(c *h.Ctx) {
-	nStreams := c.Pick(3, 40)
-	total := c.Pick(600_000, 6_000_000)
+	nStreams := c.Pick(8, 40)
+	total := c.Pick(1_500_000, 6_000_000)
 	watch := h.NewCallWatch(120 * time.Second)
 	for s := 0; s < nStreams; s++ {
 		id := fmt.Sprintf("s%d", s)
